@@ -210,10 +210,21 @@ fn stacks(evals: &mut u64) -> Option<String> {
                     if writer == "holding" {
                         holders.push((wdir.join(name), if same { b"SAME".to_vec() } else { b"W000".to_vec() }));
                     }
+                    // half of the configurations register the readers one by one, the other half through the
+                    // iterator-taking method (which is not under contract)
+                    let all_dirs: Vec<std::path::PathBuf> = (0..3u8).map(|l| root.path().join(format!("r{}", l))).collect();
+                    if !checker {
+                        for d in all_dirs.iter() {
+                            std::fs::create_dir_all(d).unwrap();
+                        }
+                        b.plain_readers(all_dirs.iter());
+                    }
                     for lvl in 0..3u8 {
                         let d = root.path().join(format!("r{}", lvl));
                         std::fs::create_dir_all(&d).unwrap();
-                        b.plain_reader(&d);
+                        if checker {
+                            b.plain_reader(&d);
+                        }
                         if mask & (1 << lvl) != 0 {
                             holders.push((d.join(name), if same { b"SAME".to_vec() } else { format!("L{}__", lvl).into_bytes() }));
                         }
